@@ -17,8 +17,11 @@ META = {
     "rule": "exhaustive product: ConnectionState (19 values, set directly) x role (initiator client / acceptor server object) x "
             "inbound message (8 classes) x integrity variant (correct, each CompID missing / wrong / swapped, MsgSeqNum missing / "
             "garbled / below / at / above expectation, MsgType missing) x send attempt of each type (Logon, Logout, application, "
-            "Heartbeat, TestRequest, ResendRequest, SequenceReset), each followed by further inbound traffic and a send; the same "
-            "with the send attempt first; random histories to length 25 from every state. A case is one history; non-trivial "
+            "Heartbeat, TestRequest (with and without a pending probe; with the probe's id, a near miss, none), ResendRequest, "
+            "SequenceReset), each followed by further inbound traffic and a send; the same "
+            "with the send attempt first; the same on the second connection of the same object (it was ACTIVE before, "
+            "disconnected, connected again: flag set directly and through the real life cycle) for every pre-logon / dead state; "
+            "random histories to length 25 from every state. A case is one history; non-trivial "
             "when a gate refused something or the connection was dropped; distinct by start state + concrete operations",
     "trusted_base": [
         "message-level abstraction (frames decoded by the real Codec; a wrong BeginString never reaches _process_message: the "
@@ -43,6 +46,8 @@ VARIANTS = [{"rel": "at"}, {"rel": "below"}, {"rel": "plus1"}, {"rel": "far"},
             {"rel": "at", "defect": "bad56"}, {"rel": "at", "defect": "swap"}, {"rel": "at", "defect": "no34"},
             {"rel": "at", "defect": "g34", "g34": "abc"}, {"rel": "at", "defect": "no35"}]
 SENDS = [{"t": "A"}, {"t": "5"}, {"t": "D"}, {"t": "0"}, {"t": "1"}, {"t": "2"}, {"t": "4", "seq": "nout", "plain": True}]
+# application-built TestRequests (R13c): with the id of the pending probe (the only one that may go out), a near miss, no id
+SENDS_X = SENDS + [{"t": "1", "id": "match"}, {"t": "1", "id": "near"}, {"t": "1", "id": "none"}]
 STATES = list(range(19))
 ROLES = [2, 1]
 
@@ -67,12 +72,32 @@ def make_jobs(spec):
         return jobs
     if kind == "sendfirst":
         jobs = []
-        for st, role, si, ci in itertools.product(STATES, ROLES, range(len(SENDS)), range(len(CLASSES))):
+        for st, role, si, ci in itertools.product(STATES, ROLES, range(len(SENDS_X)), range(len(CLASSES))):
             sym = dict(CLASSES[ci])
             sym["rel"] = "at"
-            items = [("send", SENDS[si]), ("in", sym), ("in", {"cls": "logon", "rel": "at"}), ("in", {"cls": "app", "rel": "at"}),
+            items = [("send", SENDS_X[si]), ("in", sym), ("in", {"cls": "logon", "rel": "at"}), ("in", {"cls": "app", "rel": "at"}),
                      ("send", {"t": "D"}), ("disc", 3, None), ("in", {"cls": "app", "rel": "at"})]
             jobs.append((start_of(st, role, sc.NOW0 - 5 if si % 2 else None), items))
+        return jobs
+    if kind == "reconn":
+        # the SAME connection object on its second connection: it was ACTIVE once (_connection_was_active is a
+        # per-object fact, never cleared), was disconnected and is connected again.  Every pre-logon / dead state x
+        # role x send attempt of every type, then inbound traffic and further sends.
+        # (a) the flag set directly; (b) through the real life cycle: Logon exchange, disconnect, state set again
+        jobs = []
+        sends = SENDS_X + [{"t": "8"}, {"t": "D", "extra": [["97", "Y"]]}, {"t": "D", "pd": True, "seq": "below"}]
+        for st, role, si, ci in itertools.product((1, 2, 3, 6, 7, 8), ROLES, range(len(sends)), range(len(CLASSES))):
+            sym = dict(CLASSES[ci])
+            sym["rel"] = "at"
+            items = [("send", sends[si]), ("in", sym), ("send", {"t": "D"}), ("in", {"cls": "logon", "rel": "at"}),
+                     ("in", {"cls": "app", "rel": "at"}), ("send", {"t": "D"}), ("send", {"t": "0"})]
+            jobs.append((dict(start_of(st, role, sc.NOW0 - 5 if si % 2 else None), wasact=True), items))
+        for st, role, si in itertools.product((6, 7, 8), ROLES, range(len(sends))):
+            start = start_of(st, role, None)
+            start["wasact"] = None          # keep what the life cycle below left in the object
+            start["prelude"] = [("in", {"cls": "logon", "rel": "at"}), ("send", {"t": "D"}), ("disc", 3, None)]
+            items = [("send", sends[si]), ("send", {"t": "D"}), ("in", {"cls": "logon", "rel": "at"}), ("send", {"t": "D"})]
+            jobs.append((start, items))
         return jobs
     if kind == "rand":
         from harness import c04
@@ -84,6 +109,8 @@ def make_jobs(spec):
             start = start_of(st, rng.choice(ROLES), rng.choice([None, None, sc.NOW0 - 5]))
             if rng.random() < 0.1:
                 start["wr"] = not start["wr"]
+            if rng.random() < 0.3:
+                start["wasact"] = True          # a reconnected object
             items = []
             for _ in range(rng.randrange(1, maxlen + 1)):
                 r = rng.random()
@@ -97,6 +124,8 @@ def make_jobs(spec):
                 elif r < 0.9:
                     t = rng.choice(["A", "5", "D", "0", "1", "2", "4", "8"])
                     s = {"t": t}
+                    if t == "1":
+                        s["id"] = rng.choice([None, "match", "match", "near", "none"])
                     if t == "4":
                         s["seq"] = rng.choice(["nout", "below", "above", "garbled", "missing"])
                         s["plain"] = rng.random() < 0.5
@@ -233,6 +262,13 @@ def oracle(h):
             t = op[1][0]
             raw = t == "4" and _tag(op[1], "123") != "Y" and _tag(op[1], "43") != "Y"
             must_refuse = dead or (not established and t not in ("A", "5"))
+            if t == "1" and not must_refuse:
+                # R13c: a TestRequest goes out only while a probe is pending and only with that probe's id
+                probe = before["treq"]
+                if probe is None or _tag(op[1], "112") != str(probe):
+                    if step[0] != 4 or evs or not same:
+                        fails.append((i, "TestRequest with TestReqID %r while the pending probe is %r was not refused cleanly: "
+                                         "outcome %r" % (_tag(op[1], "112"), probe, step[0]), None))
             if must_refuse:
                 if step[0] != 4 or evs or not same:
                     fails.append((i, "send of %s in state %d (session not established) was not refused cleanly: outcome %r" % (
@@ -304,6 +340,7 @@ def run(ctx):
     total = len(STATES) * len(ROLES) * len(CLASSES) * len(VARIANTS) * len(SENDS)
     specs = [("prod", lo, hi) for lo, hi in _chunks(total, 30)]
     specs.append(("sendfirst",))
+    specs.append(("reconn",))
     nrand = ctx.scale(1600, 40000)
     for _ in range(16):
         specs.append(("rand", ctx.rng.randrange(1 << 30), nrand // 16, 25))
